@@ -245,8 +245,13 @@ def step_insts(opset, tier, vl):
     import itertools
     insts = []
     maxlen = 2 if tier == "quick" else 3
-    for L in range(0, maxlen + 1):
-        for pat in itertools.product("012", repeat=L):
+    pats = [(L, pat) for L in range(0, maxlen + 1) for pat in itertools.product("012", repeat=L)]
+    if tier == "quick" and opset == 0:
+        # the smallest states in which the entries of one section are not contiguous (a section or the group-less part
+        # that is continued after entries of another section): listings must still show the whole section
+        pats += [(3, tuple(p)) for p in ("010", "101", "121")]
+    for L, pat in pats:
+        if True:
             fn = next((c for c in pat if c != "0"), None)
             if fn == "2": continue
             gp = "".join(pat)
@@ -590,6 +595,10 @@ def c17(tier):
         L = convgen.Layout(dl, cm); f = convgen.seps_for(L)[0]
         L.comment_line("", 2); L.comment_line("", 1); L.entry("", 1, f, "plain3", " Hcc")
         insts.append(conv_inst("meta-%s-%s-block-tail" % (dn, cn), L, defs=defs))
+        # comment block that begins and ends with an empty comment line ("#" alone): the empty lines belong to the block
+        L = convgen.Layout(dl, cm); f = convgen.seps_for(L)[0]
+        L.comment_line("", 0); L.comment_line("", 2); L.comment_line("", 0); L.entry("", 1, f, "plain1", "")
+        insts.append(conv_inst("meta-%s-%s-block-empty" % (dn, cn), L, defs=defs))
         if not L.mixed:
             L = convgen.Layout(dl, cm); f = convgen.seps_for(L)[0]
             L.entry("", 1, f, "plain1", ""); L.cont(" ", 2, ""); L.entry("", 1, f, "quoted2", "")
@@ -721,6 +730,19 @@ def c15(tier):
     insts += join_insts(tier)
     insts += conv_family(tier, seed, python=True, sysl=False, per_class=4 if tier == "quick" else 16, tag="py", defs=("CHECK_KEYS",), delims=["eq", "sp"] if tier == "quick" else ["eq", "coleq", "sp", "sptab"],
                          comments=["hash"] if tier == "quick" else None, nlines=(2, 3), maxlen=20 if tier == "quick" else 30, kinds=["entry", "entry", "cont", "cont", "blank", "section"])
+    # PYTHON_STYLE, fixed core: indented lines that contain the delimiter (directly after the first word / after a blank /
+    # as last character), comment characters inside an indented line and inside a value
+    for dn, cn in (("eq", "hash"), ("sp", "hash"), ("coleq", "both")) if tier == "quick" else [(d, c) for d in ("eq", "coleq", "sp", "sptab") for c in convgen.COMMENT_SETS]:
+        dl, cm = convgen.DELIM_SETS[dn], convgen.COMMENT_SETS[cn]
+        dch = "B" if dl.strip(" \t") == "" else "d"
+        for tg, texts, vk in (("worddelim", ["nm" + dch + "V"], "plain1"), ("blankdelim", ["n " + dch + "V" if dch == "d" else "n" + dch + "V"], "plain3"), ("enddelim", ["nm" + dch], "plain1"),
+                              ("two", ["n" + dch + "V", "n" + dch + "V"], "plain1"), ("hash", ["nhV"], "pyhash3")):
+            L = convgen.Layout(dl, cm, True); f = convgen.seps_for(L)[0]
+            L.entry("", 1, f, vk, "")
+            for i, t in enumerate(texts):
+                L.cont(["  ", "\t"][i % 2], python_text=t)
+            L.entry("", 1, f, "plain1", "")
+            insts.append(conv_inst("py-%s-%s-%s" % (dn, cn, tg), L, opts="PYTHON_STYLE=1", defs=("CHECK_KEYS",)))
     return {"instances": insts, "assumptions": COMMON_ASSUME + ["option strings are concrete per instance (fixed list + VERIF_SEED sample; permutations in thorough)",
             "JOIN_SAME_ENTRIES: the pairwise pass runs on objects with a concrete (section,key) pattern and a concrete pattern of empty definitions; value characters symbolic",
             "PYTHON_STYLE: generated layouts with indented lines that may contain the delimiter and comment characters (characters symbolic)"],
